@@ -15,7 +15,7 @@ def LangMap.template? (m : LangMap) (dtype code : String) : Option String :=
   (lookupD m dtype).bind (fun t => lookupD t code)
 
 def substParams (msg : String) (params : List (String × String)) : String :=
-  params.foldl (fun acc kv => acc.replace ("{{" ++ kv.1 ++ "}}") kv.2) msg
+  (sortParams params).foldl (fun acc kv => acc.replace ("{{" ++ kv.1 ++ "}}") kv.2) msg
 
 /-- `conf.NewDefaultFormatter(m)` on an issue whose message is still empty.
     (`{{value}}` is substituted last in Go; no shipped template contains it — `Gen` obligation
